@@ -15,6 +15,7 @@ RULE = ("values = strings up to length 4 over {a, b, -, /, *, ?, \\\\, %, Ã¤, â‚
         "; plus every string modifier next to `expand` in both orders on placeholder values")
 RULE += "; round 4: `re|expand` judged (the pattern's text after the placeholder scan, Spec.Mods.expandRe): patterns with escaped backslashes, wildcard characters, escaped percent signs"
 RULE += '; round 5: integers beyond 2**53 (exact), integral floats'
+RULE += '; round 6: floats next to an integer (3.0000004, 22.9999999, 1e-7)'
 ASSUMPTIONS = [
     "Python re decides validity of regular expressions and the word-character class \\w (passed to the specification per case)",
     "Python ipaddress decides validity of CIDR text",
@@ -40,7 +41,8 @@ def gen_cases(tier, seed, gen, effort):
     strs += curated
     for _ in range((200 if not thorough else 3000) * effort):
         strs.append("".join(rnd.choice(ALPHA) for _ in range(rnd.randint(3, 6))))
-    others = [0, 1, -5, 3.5, 2.0, True, False, None, 10 ** 20, 2 ** 53 + 1, -(2 ** 63) - 1, 2.0 ** 53, 1e22]
+    others = [0, 1, -5, 3.5, 2.0, True, False, None, 10 ** 20, 2 ** 53 + 1, -(2 ** 63) - 1, 2.0 ** 53, 1e22,
+              3.0000004, 22.9999999, 1e-7, -0.0, 59.99999999]      # floats next to an integer are no integers
     cases = []
 
     def add(chain, val, field="f"):
